@@ -199,6 +199,6 @@ def docPanic (c : PCmd) : Bool :=
 /-- known finding K4 (C15): a `Duration` of at least 2^43 s (≈ 279 000 years) sent as a time goes
 through `as_secs_f64`, whose 53-bit significand has a spacing of 2^-9 s ≈ 1.95 ms there: binary
 rounding (≤ 0.98 ms) plus decimal rounding (≤ 0.5 ms) can exceed 1 ms -/
-def Dur.isK4 (d : Dur) : Bool := d.secs ≥ 8796093022208
+def _root_.Mpd.Commands.Dur.isK4 (d : Dur) : Bool := d.secs ≥ 8796093022208
 
 end Mpd.CmdsL
